@@ -18,7 +18,13 @@
    line:  helper <TAB> place(same|other) <TAB> n
    answer:  the kinds of the system calls that Model/CrashXdev.lower_atomic_at performs on the target name (not on the
             temporary one) for one write of an n-line record, in order, joined by ',':  rename  when the temporary
-            file is on the target's file system;  open,write*n,close  when it is not *)
+            file is on the target's file system;  open,write*n,close  when it is not
+   line:  unwind <TAB> style(skip|commit)
+   answer:  calls: followed by the kinds of the system calls Model/CrashCache.helper_unwind performs on the target name when the body of
+            the helper's with statement raised: nothing for the helper as it is, rename for one that commits in its exit
+   line:  persists <TAB> autosave(0|1) <TAB> flavor,flavor,... <TAB> flavor,product,version;...
+   answer:  files:flavor:rows;...  the cache files Model/CrashCache.persists writes during the rebuild at start-up, in order,
+            each with the number of rows it holds *)
 let dec_lines (s : Stdlib.String.t) = dec_list ',' dec_str s
 let enc_lines l = enc_list ',' enc_str l
 
@@ -121,6 +127,22 @@ let handle (f : Stdlib.String.t array) : Stdlib.String.t =
     Stdlib.String.concat "," (Stdlib.List.map (function
       | KOpen -> "open" | KWrite -> "write" | KClose -> "close" | KRename -> "rename" | KUnlink -> "unlink"
       | KMkdir -> "mkdir" | KRmdir -> "rmdir") kinds)
+  | "unwind" ->
+    let st = (match f.(1) with "skip" -> SkipOnRaise | "commit" -> CommitOnRaise | _ -> failwith "bad style") in
+    let calls = helper_unwind st (dec_str "ups_db/cache") in
+    let kinds = Stdlib.List.filter_map (fun s -> let (p, k) = sys_target s in if is_tmp p then None else Some k) calls in
+    "calls:" ^ Stdlib.String.concat "," (Stdlib.List.map (function
+      | KOpen -> "open" | KWrite -> "write" | KClose -> "close" | KRename -> "rename" | KUnlink -> "unlink"
+      | KMkdir -> "mkdir" | KRmdir -> "rmdir") kinds)
+  | "persists" ->
+    let fls = if f.(2) = "" then [] else dec_strlist ',' f.(2) in
+    let db = if f.(3) = "" then [] else Stdlib.List.map (fun r ->
+        match split_sep ',' r with
+        | [a; b; c] -> ((dec_str a, dec_str b), dec_str c)
+        | _ -> failwith "bad row") (split_sep ';' f.(3)) in
+    let l = persists (f.(1) = "1") fls db in
+    "files:" ^ Stdlib.String.concat ";" (Stdlib.List.map (fun (fl, (_, rows)) ->
+      enc_str fl ^ ":" ^ string_of_int (Stdlib.List.length rows)) l)
   | _ -> failwith "unknown op"
 
 let () = main_loop handle
